@@ -45,7 +45,9 @@ RULE = ("random DAGs on 1..5 data columns (plus sometimes a column outside the m
         "without a `_weight` column, estimator that is not a class).  Closed forms are compared RELATIVE (1e-9) to "
         "the model's exact value at any magnitude; EM at 1e-6.  Restrictions: under the torch backend TabularCPD "
         "builds its tensor through float32 (open finding torch-backend-float32-construction of C03), so torch cases "
-        "are compared at 1e-5 relative and get no weights outside the float32 range; variable names are strings "
+        "are compared at 1e-5 relative and get no weights outside the float32 range; torch with n_jobs > 1 uses joblib's "
+        "thread backend only (process workers do not inherit pgmpy's backend setting and return numpy CPDs that the "
+        "torch-mode parent cannot copy: TypeError, reported); variable names are strings "
         "(integer / tuple / mixed names cannot be sorted or are level numbers for pandas unstack), so 'names that do "
         "not sort against each other' cannot occur; the network handed to fit_update must validate, so CPDs that "
         "list one variable's states in different orders are outside the domain; an empty data frame declares no "
@@ -210,6 +212,9 @@ def gen_fit(rng, tier):
             "pc_form": rng.choice(["list", "nd", "F", "view", "int"]),
             "n_jobs": rng.choice([2, 2, -1]) if rng.random() < 0.08 else 1, "loky": tier == "thorough",
             "mseed": rng.randint(0, 10**9)}
+    if case["backend"] == "torch":
+        # joblib's process workers start with the default (numpy) backend: see RULE
+        case["loky"] = False
     if case["backend"] == "torch" and wmode == "extreme":
         case["wmode"] = "wide"
         case["weights"] = gen_weights(rng, rows, "wide")
@@ -604,7 +609,7 @@ def cases(tier, seed):
     rng = random.Random(seed)
     k = 1 if tier == "quick" else 10
     out = [d4_case()]
-    for _ in range(400 * k):
+    for _ in range(360 * k):
         out.append(gen_fit(rng, tier))
     for _ in range(70 * k):
         out.append(gen_reject(rng))
@@ -618,7 +623,7 @@ def cases(tier, seed):
         out.append(gen_wide(rng, tier))
     for _ in range(60 * k):
         out.append(gen_em(rng, tier, False))
-    for _ in range(60 * k):
+    for _ in range(50 * k):
         out.append(gen_em(rng, tier, True))
     for _ in range(70 * k):
         out.append(gen_session(rng, tier))
